@@ -44,6 +44,30 @@ CLAIMED["C06"] = dict(
     note=TB + "The correspondence model<->constructors is differential testing (sampled beyond the exhaustive small scope). "
          "Known finding recorded for idempotence with complex-conjugate t-amplitude names (known_findings.json).")
 
+CLAIMED["C08"] = dict(
+    category="proof", design="DESIGN.md §4 C08",
+    technique="Lean 4 theorems over executable models (order_substitutions, permute map, lowest-names pool, Indices registry invariant by induction over all histories) + differential correspondence + validated renamings",
+    text="Executable Lean models of order_substitutions, the substitution map of Container.permute, get_lowest_avail_indices and "
+         "the Indices registry are proved correct for ALL inputs: orderSubs_simul (ordered list applied sequentially = simultaneous "
+         "map, for every finite map incl. chains/cycles/many-to-one), permute_compose (= the transpositions one after another), "
+         "lowestAvail_* (n distinct unused names of the space, lowest in pool order), registry invariant over all histories "
+         "(Slot.inv_run) with generic names fresh (run_generic_fresh) and a name resolving to one entry (get_idem). The models are "
+         "run against the code on every check (same inputs, outputs and final registry state diffed; object identity checked with "
+         "`is`); value preservation of substitute_contracted / substitute_with_generic is validated by the proved checker.",
+    note=TB + "Correspondence model<->code is differential (sampled histories/maps). Python dict order modelled by association lists.")
+
+CLAIMED["C20"] = dict(
+    category="proof", design="DESIGN.md §4 C20",
+    technique="Lean 4 proof of the unitary step and of the certificate checker checkUnitary (checkUnitary_sound) + per-run validation of simplify_unitary outputs; formal counter-witness for the excluded case",
+    text="unitaryStep (U_pq U_pr -> delta_qr when p is summed, occurs exactly on the two factors, indices in one class) is proved "
+         "value-preserving for every orbital model, every tensor model in which U is orthogonal on each class and every admissible "
+         "target assignment (unitaryStep_sound); checkUnitary = certified unitary steps + proved equivalence check "
+         "(checkUnitary_sound). Every simplify_unitary(input)=output pair explored is validated by that checker; outputs that need "
+         "an inadmissible step are rejected and handed to the numeric falsifier with exactly orthogonal rational matrices. "
+         "unitary_square_counter is the kernel-checked witness that the excluded case (both indices shared, remaining index summed "
+         "nowhere else) changes the value. Two genuine defects were repaired (fix: commits), one is recorded as known finding.",
+    note=TB + "Input expressions are sampled. Known finding: evaluate_deltas=True applied to a generated delta whose summed index occurs on no other object.")
+
 PENDING = {
 }
 
